@@ -140,3 +140,129 @@ def nested(depth, indef=False):
     if indef:
         return Item("arrI", b"\x9f" * depth + b"\x01" + b"\xff" * depth, 1)
     return Item("arr", b"\x81" * depth + b"\x01", 1)
+
+
+# ---------------------------------------------------------------------------------------------
+# parsing and re-encoding (used by C05: block boundaries, C08: semantics-preserving rewrites)
+class Node:
+    __slots__ = ("major", "arg", "width", "indef", "data", "children", "chunks", "start", "end", "simple")
+
+    def __init__(self, major):
+        self.major = major; self.arg = 0; self.width = None; self.indef = False; self.data = b""
+        self.children = []; self.chunks = None; self.start = self.end = 0; self.simple = None
+
+
+def _head(b, pos):
+    ib = b[pos]; major, ai = ib >> 5, ib & 31
+    pos += 1
+    if ai < 24:
+        return major, ai, "imm", pos
+    if ai == 31:
+        return major, None, None, pos
+    nb = {24: 1, 25: 2, 26: 4, 27: 8}[ai]
+    return major, int.from_bytes(b[pos:pos + nb], "big"), {24: "w1", 25: "w2", 26: "w4", 27: "w8"}[ai], pos + nb
+
+
+def parse(b, pos=0):
+    """strict enough for files produced by the exporter; returns (Node, newpos)"""
+    start = pos
+    ib = b[pos]
+    major, ai = ib >> 5, ib & 31
+    n = Node(major); n.start = start
+    if major == 7:
+        nb = {24: 1, 25: 2, 26: 4, 27: 8}.get(ai, 0)
+        n.simple = b[pos:pos + 1 + nb]
+        n.end = pos + 1 + nb
+        return n, n.end
+    major, arg, width, pos = _head(b, pos)
+    n.arg, n.width, n.indef = arg, width, arg is None
+    if major in (0, 1):
+        pass
+    elif major in (2, 3):
+        if n.indef:
+            n.chunks = []
+            while b[pos] != 0xff:
+                _, clen, cw, pos = _head(b, pos)
+                n.chunks.append(b[pos:pos + clen]); pos += clen
+            pos += 1
+            n.data = b"".join(n.chunks)
+        else:
+            n.data = b[pos:pos + arg]; pos += arg
+    elif major in (4, 5):
+        if n.indef:
+            while b[pos] != 0xff:
+                c, pos = parse(b, pos); n.children.append(c)
+            pos += 1
+        else:
+            for _ in range(arg * (2 if major == 5 else 1)):
+                c, pos = parse(b, pos); n.children.append(c)
+    elif major == 6:
+        c, pos = parse(b, pos); n.children.append(c)
+    n.end = pos
+    return n, pos
+
+
+def encode(n, rng=None, p=0.0, unknown=None):
+    """re-encode; with rng and p>0 applies random semantics-preserving rewrites at each node:
+    definite<->indefinite, chunking, head widening, map member permutation, unknown map members"""
+    def flip():
+        return rng is not None and rng.random() < p
+    def hd(major, arg):
+        if rng is not None and flip():
+            return head(major, arg, rand_width(rng, arg))
+        return head(major, arg)
+    m = n.major
+    if m == 7:
+        return bytes(n.simple)
+    if m in (0, 1):
+        return hd(m, n.arg)
+    if m in (2, 3):
+        indef = n.indef != flip()
+        if indef:
+            data = n.data
+            chunks = []
+            if rng is not None and data:
+                k = rng.randrange(1, 4)
+                cuts = sorted(rng.randrange(0, len(data) + 1) for _ in range(k - 1))
+                prev = 0
+                for c in cuts + [len(data)]:
+                    chunks.append(data[prev:c]); prev = c
+            elif data:
+                chunks = [data]
+            if rng is not None and rng.random() < 0.2:
+                chunks.insert(rng.randrange(len(chunks) + 1), b"")
+            return bytes([m * 32 + 31]) + b"".join(hd(m, len(c)) + c for c in chunks) + b"\xff"
+        return hd(m, len(n.data)) + n.data
+    if m == 4:
+        body = b"".join(encode(c, rng, p, unknown) for c in n.children)
+        if n.indef != flip():
+            return b"\x9f" + body + b"\xff"
+        return hd(4, len(n.children)) + body
+    if m == 5:
+        pairs = [(n.children[i], n.children[i + 1]) for i in range(0, len(n.children), 2)]
+        enc_pairs = [encode(k, rng, p, unknown) + encode(v, rng, p, unknown) for k, v in pairs]
+        if rng is not None and unknown is not None and flip():
+            used = set()
+            for _ in range(rng.randrange(1, 3)):
+                enc_pairs.append(unknown(rng, used))
+        if rng is not None and flip():
+            rng.shuffle(enc_pairs)
+        body = b"".join(enc_pairs)
+        if n.indef != flip():
+            return b"\xbf" + body + b"\xff"
+        return hd(5, len(enc_pairs)) + body
+    if m == 6:
+        return hd(6, n.arg) + encode(n.children[0], rng, p, unknown)
+    raise ValueError(m)
+
+
+def unknown_member(rng, used=None):
+    """an unknown integer key (never a C-DNS key, distinct within one map) with an arbitrary well-formed value"""
+    used = set() if used is None else used
+    while True:
+        k = rng.choice([rng.randrange(40, 5000), -rng.randrange(10, 5000), 2**63 - 1, 2**63, 2**64 - 1, -2**63, -2**64])
+        if k not in used:
+            used.add(k)
+            break
+    key = head(0, k, rand_width(rng, k)) if k >= 0 else head(1, -1 - k, rand_width(rng, -1 - k))
+    return key + g_item(rng, depth=rng.choice([0, 1, 3, 5]), maxlen=20).enc
